@@ -176,6 +176,11 @@ func (c *Case) SimWith(d simrt.Drawer, setup func(rt *simrt.RT)) *SimResult {
 	if rt.Adhoc > 0 {
 		c.res.Adhoc += rt.Adhoc
 	}
+	for k, v := range rt.SiteHits {
+		if strings.Contains(k, ".go:") && !strings.HasSuffix(k, "+") && !strings.HasSuffix(k, "$") && !strings.HasPrefix(k, "io:io:") {
+			c.probes["site "+k] += int64(v)
+		}
+	}
 	if rt.Foreign > 0 {
 		c.probes["foreign-goroutine-hook-calls"] += int64(rt.Foreign)
 	}
